@@ -27,6 +27,8 @@ def main():
     src = Path(sys.argv[1]).resolve()
     name = sys.argv[2]
     meta = json.loads((src / "meta.json").read_text())
+    if "property" not in meta:                               # a directory already filed under /verif/seeded
+        meta["property"] = meta["breaks_property"]
     pids = sys.argv[3:] or [meta["property"]]
     tier = os.environ.get("TIER", "quick")
     wt = Path(f"/tmp/wt-sv-{os.getpid()}")
@@ -72,8 +74,9 @@ def main():
     if ran.get("valid"):
         dst = VERIF / "seeded" / name
         dst.mkdir(parents=True, exist_ok=True)
-        shutil.copy(src / "patch.diff", dst / "patch.diff")
-        shutil.copy(src / "demo.py", dst / "demo.py")
+        if src != dst:
+            shutil.copy(src / "patch.diff", dst / "patch.diff")
+            shutil.copy(src / "demo.py", dst / "demo.py")
         old = {}
         if (dst / "meta.json").exists():
             old = json.loads((dst / "meta.json").read_text()).get("what_i_ran", {}).get("checks", {})
@@ -85,7 +88,11 @@ def main():
             "needs_to_manifest": meta.get("needs_to_manifest"),
             "why_tests_pass": meta.get("why_tests_pass"),
             "files": meta.get("files"),
-            "origin": "written by a fresh sub-agent that saw only the property text and a scratch worktree of /repo",
+            "origin": meta.get("origin", "written by a fresh sub-agent that saw only the property text and a scratch "
+                                         "worktree of /repo"),
+            "first_result": (meta.get("first_result")
+                             or {p: c.get("caught") for p, c in meta.get("what_i_ran", {}).get("checks", {}).items()}
+                             or None),
             "repo_head": sh(["git", "-C", "/repo", "rev-parse", "--short", "HEAD"]).stdout.strip(),
             "what_i_ran": ran,
         }
